@@ -47,6 +47,15 @@ func (c *Ctx) TLSConfig(prop string) {
 		}
 		cfg, ok := tlsCall.Call.Args[0].(*ssa.Alloc)
 		if !ok {
+			// the configuration may be built by a helper: its (single) success result must be a composite literal there
+			if rvs, isH := HelperSuccessResults(tlsCall.Call.Args[0]); isH && len(rvs) == 1 {
+				if a2, isAlloc := rvs[0].Val.(*ssa.Alloc); isAlloc {
+					cfg, ok = a2, true
+					fn = a2.Parent()
+				}
+			}
+		}
+		if !ok {
 			c.R.Unknown(rule, Fn(fn), c.Pos(tlsCall), "the tls.Config is not a local composite literal")
 			continue
 		}
@@ -58,6 +67,9 @@ func (c *Ctx) TLSConfig(prop string) {
 			if !ok {
 				if _, isCall := r.(ssa.CallInstruction); isCall && r != ssa.Instruction(tlsCall) {
 					c.R.Unknown(rule, Fn(fn), c.Pos(r), "the tls.Config is passed to another function before use")
+				}
+				if st, isStore := r.(*ssa.Store); isStore && st.Val == ssa.Value(cfg) {
+					c.R.Unknown(rule, Fn(fn), c.Pos(r), "the tls.Config is stored somewhere before use")
 				}
 				continue
 			}
@@ -140,14 +152,9 @@ func (c *Ctx) TLSConfig(prop string) {
 		if bad == 0 {
 			c.R.OK(rule, Fn(fn), c.Pos(tlsCall), "ClientAuth = RequireAndVerifyClientCert; ClientCAs = fresh pool + configured CA only; MinVersion >= TLS 1.2; no verification overrides; credentials reach grpc.NewServer on every path")
 		}
-		// where the server is stored
-		for _, r := range *ns.Value().Referrers() {
-			if st, ok := r.(*ssa.Store); ok {
-				if fa, ok := st.Addr.(*ssa.FieldAddr); ok {
-					t := fa.X.Type().Underlying().(*types.Pointer).Elem().Underlying().(*types.Struct)
-					serverField = t.Field(fa.Field)
-				}
-			}
+		// where the server is stored (directly, or after being returned by its constructor)
+		if f := c.storedField(ns.Value(), 0); f != nil {
+			serverField = f
 		}
 	}
 	// O2: registrations and Serve on that server
@@ -216,6 +223,53 @@ func (c *Ctx) TLSConfig(prop string) {
 	if bad == 0 {
 		c.R.OK(rule2, "server", "-", fmt.Sprintf("%d registrations and %d Serve call(s), all on the server built with the TLS credentials; handlers have no other caller", nreg, nserve))
 	}
+}
+
+// storedField follows value v to the struct field it is stored in, through returns to the static callers.
+func (c *Ctx) storedField(v ssa.Value, depth int) *types.Var {
+	if v == nil || v.Referrers() == nil || depth > 3 {
+		return nil
+	}
+	for _, r := range *v.Referrers() {
+		switch x := r.(type) {
+		case *ssa.Store:
+			if fa, ok := x.Addr.(*ssa.FieldAddr); ok && x.Val == v {
+				t := fa.X.Type().Underlying().(*types.Pointer).Elem().Underlying().(*types.Struct)
+				return t.Field(fa.Field)
+			}
+		case *ssa.Return:
+			idx := -1
+			for i, rv := range x.Results {
+				if rv == v {
+					idx = i
+				}
+			}
+			if idx < 0 {
+				continue
+			}
+			fn := x.Parent()
+			for _, cs := range c.staticCallers()[fn] {
+				cv := cs.Value()
+				if cv == nil {
+					continue
+				}
+				if fn.Signature.Results().Len() == 1 {
+					if f := c.storedField(cv, depth+1); f != nil {
+						return f
+					}
+					continue
+				}
+				for _, r2 := range *cv.Referrers() {
+					if ex, ok := r2.(*ssa.Extract); ok && ex.Index == idx {
+						if f := c.storedField(ex, depth+1); f != nil {
+							return f
+						}
+					}
+				}
+			}
+		}
+	}
+	return nil
 }
 
 func termOrUnset(v ssa.Value) string {
